@@ -52,6 +52,7 @@ pub fn gen(rng: &mut Rng, tier: Tier, idx: u64) -> Case {
     let (script, tail) = gen_read_script(rng, len, pp, &[]);
     c.read_script = script;
     c.read_tail = tail;
+    c.reader_style = rng.below(3) as u8;
     c
 }
 
